@@ -9,7 +9,9 @@ RULE = ("C05: programs mixing Condvar waiters and notifiers (notify_one / notify
 
 def run(tier):
     feats = ("spawn", "spawn", "join", "yield", "atomic", "park", "park", "mutex", "condvar", "condvar", "barrier", "barrier", "once", "once", "rand")
-    res = run_prog_check("C05", PROPS, tier, ["c03", "objects:C03:C04", "sync2:C05"], features=feats, n_quick=5000, n_thorough=80000, rule=RULE)
+    res = run_prog_check("C05", PROPS, tier, ["c03", "objects:C03:C04", "sync2:C05"], features=feats, n_quick=3000, n_thorough=60000, rule=RULE,
+                         focus=["park", "condvar", "barrier", "park", "condvar", ("spawn", "join", "once", "yield", "atomic")],
+                         focus_n=(2500, 50000))
     if isinstance(res, int):
         return res
     ctx, cases, mo, io = res
